@@ -143,6 +143,31 @@ func (p *pkgInfo) findFunc(recv, name string) *ast.FuncDecl {
 			}
 		}
 	}
+	// a package-level `var name T = func(...) {...}` (e.g. the built-in fallback handlers) is translated like the
+	// function `func name(...) {...}`
+	if recv == "" {
+		for _, f := range p.files {
+			for _, d := range f.Decls {
+				gd, ok := d.(*ast.GenDecl)
+				if !ok || gd.Tok != token.VAR {
+					continue
+				}
+				for _, sp := range gd.Specs {
+					vs, ok := sp.(*ast.ValueSpec)
+					if !ok {
+						continue
+					}
+					for i, n := range vs.Names {
+						if n.Name == name && i < len(vs.Values) {
+							if lit, ok := vs.Values[i].(*ast.FuncLit); ok {
+								return &ast.FuncDecl{Name: n, Type: lit.Type, Body: lit.Body}
+							}
+						}
+					}
+				}
+			}
+		}
+	}
 	return nil
 }
 
@@ -1117,6 +1142,8 @@ func (t *tr) libCall(c *ast.CallExpr, callee string) (string, T, bool) {
 		return "(Bytes.toUpper " + arg(0) + ")", tStr, true
 	case "strings.ToLower":
 		return "(GoRt.toLower " + arg(0) + ")", tStr, true
+	case "strings.Join":
+		return "(Bytes.join " + arg(1) + " " + arg(0) + ")", tStr, true
 	case "strings.TrimLeft", "strings.TrimRight":
 		b, ok := t.singleByte(c.Args[1])
 		if !ok {
